@@ -54,8 +54,13 @@ if __name__ == '__main__':
     which = sys.argv[2] if len(sys.argv) > 2 else 'all'
     res = []
     total = 0
+    if which == 'regroup':
+        import pickle
+        total, res = pickle.load(open('/tmp/c18_triage_last.pkl', 'rb'))
     with mp.get_context('fork').Pool(16) as pool:
-        if which == 'lc':
+        if which == 'regroup':
+            pass
+        elif which == 'lc':
             for n, r in pool.map(lc, range(64)):
                 total += n
                 res += r
@@ -75,12 +80,21 @@ if __name__ == '__main__':
             for n, r in pool.map(dfs, roots):
                 total += n
                 res += r
+    import pickle
+    if which != 'regroup':
+        pickle.dump((total, res), open('/tmp/c18_triage_last.pkl', 'wb'))
+    from mcx import findings
+    known = findings.load('C18')
     groups = {}
+    nknown = 0
     for r in res:
-        for path, detail in r['fails']:
+        for path, detail in r['fails'][:1]:
+            if findings.match(known, 'generated-elf-dwarf' if which != 'lc' else 'generated-line-cfi', r['labels'], path, core._short(detail)) is not None:
+                nknown += 1
+                continue
             key = (path, norm(detail.split('\n', 1)[-1] if detail.startswith('Mismatch on line') else detail))
             groups.setdefault(key, []).append(r)
-    print('executions', total, 'failing', len(res), 'groups', len(groups))
+    print('executions', total, 'failing', len(res), 'matching known findings', nknown, 'groups', len(groups))
     for (path, nd), rs in sorted(groups.items(), key=lambda kv: -len(kv[1])):
         print('-' * 100)
         print('%4d x  %s' % (len(rs), path))
